@@ -505,6 +505,14 @@ c  C     PRINT 7800,M,DABS(QXT),QSC,NMAX
   220 CONTINUE
       WALB=-QSCA/QEXT
 C       IF (WALB.GT.1D0+DDELT) PRINT 9111
+C     A single-scattering albedo above 1 (more light scattered than removed
+C     from the beam) means that the convergence test above was met by
+C     accident on an unconverged T-matrix (large, high-index particles):
+C     report the failure to the caller instead of returning such amplitudes
+      IF (WALB.GT.1D0+1D-2) THEN
+         MAXITER=-1
+         RETURN
+      ENDIF
  9111 FORMAT ('WARNING: W IS GREATER THAN 1')
 
 C  COMPUTATION OF THE AMPLITUDE AND PHASE MATRICES
